@@ -27,6 +27,13 @@ interpolation code of the temperature and abundance profiles needs, translated F
     `fun i => l.getD i 0` plus their length where the callee declares one (`lens`).
   * OPTIONAL ATTRIBUTES: kind 'opt' (`Option α`): `x is None`, `x is None or c(x)` (`or` evaluates `c(x)` only for a value),
     `if x is None or c(x): x = e` (afterwards `x` is a number): `Option.elim x e (fun v => if c(v) then e else v)`.
+  * `if E is None: A else: B` (also `is not None`) for an optional number `E` given by ANY expression (an attribute, a
+    component `t[k]` of a tuple an external returned): `Option.elim E (A) (fun v => B)`; inside `B` the expression `E` — and
+    every local assigned from it and not re-bound since — is the number `v`, inside `A` it is None and tests on it are
+    decided.  The conditional yields the variables its branches assign; when a branch may raise it yields an `Except`
+    that is bound by `match` (the statements after the conditional are NOT repeated).  `x = []` is a placeholder that
+    must be overwritten before use; `np.power(x, y)` is `x ** y` (literal exponent 2..6: product; base 10: `pow10`;
+    otherwise the declared external `externals={'**': (name, 2)}`, entry by entry);
   * `np.array(l)` of a list of numbers (the same values), a call of an ATTRIBUTE that holds a function value (kind
     `('fn', ('s',), 's')`, e.g. the interpolant an external such as `interp1d` returned to `__init__`; applied to an array
     it is applied to every entry), attributes of kind 'none' (left None under the translated calling pattern: no parameter);
@@ -252,6 +259,24 @@ class SeqFn(VFn):
             if len(A) == 1 and fty[1][0] == 's' and rs[0][1] == 'list' and fty[2] == 's':
                 return self.map1('(%s x__)' % nm, rs[0][0]), 'list'
             return '(%s %s)' % (nm, ' '.join(self.co(r, t, node) for r, t in zip(rs, fty[1]))), fty[2]
+        if full in ('np.power', 'numpy.power') and len(A) == 2 and not node.keywords:
+            # np.power(x, y) is x ** y, element-wise: a literal exponent 2..6 is the repeated product, base 10 is pow10,
+            # anything else the declared external `'**'` (applied entry by entry)
+            pw = ast.BinOp(left=A[0], op=ast.Pow(), right=A[1])
+            lit = lambda n: isinstance(n, ast.Constant) and isinstance(n.value, (int, float)) \
+                and not isinstance(n.value, bool)
+            if (lit(A[1]) and float(A[1].value) == int(A[1].value) and 2 <= int(A[1].value) <= 6) \
+                    or (lit(A[0]) and A[0].value in (10, 10.0)):
+                return super().tx(ast.copy_location(pw, node), env)
+            if '**' in self.externals:
+                nm = self.externals['**'][0]
+                self.add_param(nm, 'α → α → α')
+                L, R = self.tx(A[0], env), self.tx(A[1], env)
+                L = (self.to_float(L, node), 's') if L[1] != 'list' else L
+                R = (self.to_float(R, node), 's') if R[1] != 'list' else R
+                if L[1] == 'list' and R[1] == 'list':
+                    self.pending.append(('guard', '(Np.bcastOk (List.length %s) (List.length %s))' % (L[0], R[0])))
+                return self.binary_elementwise(nm, L, R, node)
         if full in ('np.cumsum', 'numpy.cumsum') and len(A) == 1 and not node.keywords:
             return '(Np.cumsum %s)' % self.co(self.tx(A[0], env), 'list', node), 'list'
         if isinstance(node.func, ast.Attribute) and node.func.attr == 'argmin' and not A and not node.keywords:
@@ -292,6 +317,8 @@ class SeqFn(VFn):
             self.rename = saved
 
     def tx(self, node, env):
+        if isinstance(node, (ast.Name, ast.Attribute, ast.Subscript)) and '#ref:' + ast.unparse(node) in env:
+            return env['#ref:' + ast.unparse(node)]       # an optional value inside a branch that has tested it
         if isinstance(node, (ast.Call, ast.Compare, ast.BoolOp)) and ast.unparse(node) in self.bext:
             nm = self.bext[ast.unparse(node)]
             self.add_param(nm, 'Bool')
@@ -633,6 +660,74 @@ class SeqFn(VFn):
         self.gen[key] = self.gen.get(key, 0) + 1
         return '%slet %s := (Option.map (fun v__ => %s) %s)\n' % (ind, nm, r[0], nm)
 
+    def invalidate(self, key, env):
+        """`key` was re-bound: what was known about optional values that mention it no longer holds"""
+        pat = re.compile(r'(?<![\w.])' + re.escape(key) + r'(?![\w])')
+        for k in [k for k in env if isinstance(k, str) and (k.startswith('#ref:') or k.startswith('#alias:'))]:
+            if k.startswith('#alias:') and k[7:] == key:
+                del env[k]
+            elif pat.search(k.split(':', 1)[1] if k.startswith('#ref:') else str(env[k])):
+                del env[k]
+
+    def opt_refine(self, s, env, ind, ctx):
+        """`if E is None: A else: B` for an optional number E (any expression): `Option.elim E (A) (fun v => B)`, where in B
+        the expression E (and every local that was assigned from it) is the number `v`, and in A it is None (tests on it are
+        decided).  The branches give the variables they assign; a branch that may raise gives an `Except`, bound by `match`.
+        None: not this pattern"""
+        t = s.test
+        if not (isinstance(t, ast.Compare) and len(t.ops) == 1 and isinstance(t.ops[0], (ast.Is, ast.IsNot))
+                and isinstance(t.comparators[0], ast.Constant) and t.comparators[0].value is None):
+            return None
+        snap = self.snapshot()
+        etxt, ety = self.tx(t.left, env)
+        if ety != 'opt' or self.pending != snap[1]:
+            self.restore(snap)
+            return None
+        text = ast.unparse(t.left)
+        none_body, some_body = (s.body, s.orelse) if isinstance(t.ops[0], ast.Is) else (s.orelse, s.body)
+        both = [n for n in self.vassigned(s.body, env) if n in self.vassigned(s.orelse, env)]
+        names = [n for n in self.vassigned([s], env) if n in env or n in both]
+        if not names:
+            self.fail(s, 'conditional without effect on the variables in scope')
+        self.ntmp += 1
+        v = 'v%d__' % self.ntmp
+        aliases = [k[7:] for k in env if isinstance(k, str) and k.startswith('#alias:') and env[k] == text]
+
+        def env_of(kind):
+            e = dict(env)
+            e['#ref:' + text] = ('()', 'none') if kind == 'none' else (v, 's')
+            for x in aliases:
+                e[x] = 'none' if kind == 'none' else 's'
+                e.pop('#alias:' + x, None)
+            return e
+        pre = ''.join('%slet %s := %s\n' % (ind + '    ', self.var(x), v) for x in aliases)
+        snap2 = self.snapshot()
+        n0 = self.nexits
+        recs = []
+        probe = lambda e: self.pack(names, e, None, recs)
+        self.block(none_body, env_of('none'), ind + '    ', probe, ctx)
+        self.block(some_body, env_of('some'), ind + '    ', probe, ctx)
+        exits = self.nexits != n0
+        self.restore(snap2)
+        tys = self.merge_types(recs, lambda why: self.fail(s, why))
+        if exits:
+            self.err('raised in a branch', s)
+            if ctx.get('cont'):
+                self.fail(s, 'a branch that may raise inside a translated loop body')
+            final = lambda e: '(Except.ok %s)' % self.pack(names, e, tys)
+        else:
+            final = lambda e: self.pack(names, e, tys)
+        nb = self.block(none_body, env_of('none'), ind + '    ', final, ctx)
+        sb = self.block(some_body, env_of('some'), ind + '    ', final, ctx)
+        val = '(Option.elim %s (\n%s%s  ) (fun %s =>\n%s%s%s  ))' % (etxt, nb, ind, v, pre, sb, ind)
+        if not exits:
+            return self.unpack_keys(names, tys, val, ind, env)
+        tmp = self.fresh()
+        out = '%smatch %s with\n%s| Except.error e__ => (Except.error e__)\n%s| Except.ok %s =>\n' % (
+            ind, val, ind, ind, tmp)
+        self.nexits += 1
+        return out + self.unpack_keys(names, tys, tmp, ind, env)
+
     def unzip_try(self, s, env, ind, ctx):
         """try: a, b = zip(*L)  except ValueError: a, b = e1, e2   (L a list of pairs; see the module docstring)"""
         h = s.handlers[0] if len(s.handlers) == 1 else None
@@ -716,6 +811,7 @@ class SeqFn(VFn):
                 out += self.unzip_try(s, env, ind, ctx)
                 continue
             if isinstance(s, ast.Raise):
+                self.nexits += 1
                 return out + ind + self.raise_text(s) + '\n'
             if isinstance(s, ast.Continue):
                 if not ctx.get('cont'):
@@ -746,10 +842,20 @@ class SeqFn(VFn):
                 if isinstance(t, ast.Subscript):
                     out += self.store(t, s.value, None, env, ind, s, ctx)
                     continue
+                if isinstance(t, ast.Name) and isinstance(s.value, ast.List) and not s.value.elts:
+                    env[t.id] = 'emptylist'               # `x = []`: a value that must be overwritten before it is used
+                    self.gen[t.id] = self.gen.get(t.id, 0) + 1
+                    self.invalidate(t.id, env)
+                    continue
                 txt, ty = self.tx(s.value, env)
                 out += self.flush(ind, ctx, s)
                 out += self.bind(t, txt, ty, env, ind, s)
                 self.note_binding(t, s.value, env)
+                for k in ([self.target_key(e) for e in t.elts] if isinstance(t, ast.Tuple) else [self.target_key(t)]):
+                    if k is not None:
+                        self.invalidate(k, env)
+                if isinstance(t, ast.Name) and ty == 'opt' and isinstance(s.value, (ast.Name, ast.Attribute, ast.Subscript)):
+                    env['#alias:' + t.id] = ast.unparse(s.value)      # t holds the same optional value as that expression
                 continue
             if isinstance(s, ast.AugAssign):
                 ops = {ast.Add: '+', ast.Sub: '-', ast.Mult: '*', ast.Div: '/'}
@@ -765,6 +871,8 @@ class SeqFn(VFn):
                 txt, ty = self.arith(ops[type(s.op)], self.tx(t, env), self.tx(s.value, env), s)
                 out += self.flush(ind, ctx, s)
                 out += self.bind(t, txt, ty, env, ind, s)
+                if key is not None:
+                    self.invalidate(key, env)
                 continue
             if isinstance(s, ast.For):
                 out += self.loop(s, env, ind)
@@ -778,6 +886,10 @@ class SeqFn(VFn):
                     od = self.optl_update(s, env, ind)
                 if od is not None:
                     out += self.flush(ind, ctx, s) + od
+                    continue
+                od = self.opt_refine(s, env, ind, ctx)
+                if od is not None:
+                    out += od
                     continue
                 c = self.cond(s.test, env)
                 out += self.flush(ind, ctx, s)
